@@ -86,6 +86,17 @@ def check_options():
     if options.args().jobs < 1:
         raise DDSMTException('The number of jobs must be at least 1')
 
+    # the output file is replaced by a temporary file written next to it:
+    # find out now whether that file can be created (and is nobody else's)
+    tmpname = nodeio.get_tmp_filename_for(options.args().outfile)
+    try:
+        with open(tmpname, 'x'):
+            pass
+        os.unlink(tmpname)
+    except OSError as e:
+        raise DDSMTException(
+            f'cannot create a temporary file next to the output file: {e}')
+
     # limits are handed to the operating system as integers
     for name in ['timeout', 'timeout_cc']:
         val = getattr(options.args(), name)
